@@ -5,19 +5,25 @@ table = subprocess.run(['/verif/bin/seedtable.py'], capture_output=True, text=Tr
 n = len(glob.glob('/verif/seeded/*/patch.diff'))
 missed = sum(1 for f in glob.glob('/verif/seeded/*/meta.json') if json.load(open(f)).get('initially_missed'))
 oos = sum(1 for f in glob.glob('/verif/seeded/*/meta.json') if json.load(open(f)).get('out_of_statement'))
+gaps = sum(1 for f in glob.glob('/verif/seeded/*/meta.json') if json.load(open(f)).get('open_gap'))
 def _round(f):
-    return str(json.load(open(f)).get('round', ''))[:1]
+    return str(json.load(open(f)).get('round', '')).split(' ')[0]
 r8 = [f for f in glob.glob('/verif/seeded/*/meta.json') if _round(f) == '8']
 r9 = [f for f in glob.glob('/verif/seeded/*/meta.json') if _round(f) == '9']
 m8 = sum(1 for f in r8 if json.load(open(f)).get('initially_missed'))
 m9 = sum(1 for f in r9 if json.load(open(f)).get('initially_missed'))
-rounds = 'nine' if r9 else 'eight'
+r10 = [f for f in glob.glob('/verif/seeded/*/meta.json') if _round(f) == '10']
+m10 = sum(1 for f in r10 if json.load(open(f)).get('initially_missed') or json.load(open(f)).get('open_gap'))
+rounds = 'ten' if r10 else ('nine' if r9 else 'eight')
 later = (f"Round 8 (a later session; two changes per property, the brief of this task only: property text and scratch worktree, "
          f"no list of earlier changes; asked for changes that need an interleaving, a fault, a multi-step history, an unusual input or two "
          f"cooperating sites): {m8} of {len(r8)} missed at first. ")
 if r9:
     later += (f"Round 9 (one change for each of the ten properties with the most misses so far, told the titles of the earlier changes "
               f"for that property to keep away from): {m9} of {len(r9)} missed at first. ")
+if r10:
+    later += (f"Round 10 (one change for each of the other properties, same brief as round 9, started in the last hour of the session): "
+              f"{m10} of {len(r10)} missed at first. ")
 text = f'''<!-- SEEDED-BEGIN -->
 ## 13. Seeded breaking changes and the checks that catch them
 
@@ -36,9 +42,9 @@ property's check was run against a scratch worktree with the change applied (`bi
 `seeded/<id>/` holds patch.diff, demo_test.go, meta.json (what it breaks, what it needs to manifest, how to run the
 demonstration) and result.json (what was run, the witness keys reported).
 
-Outcome: {n - oos} of {n} are reported by the quick tier of their property's check. {missed} of them were missed when
+Outcome: {n - oos - gaps} of {n} are reported by the quick tier of their property's check. {missed} of them were missed when
 first tried; each miss was answered by more observability or workload (never by loosening an oracle) and is marked
-below. {oos} changes are not violations of their statements as worded and are deliberately not reported.
+below. {oos} changes are not violations of their statements as worded and are deliberately not reported; {gaps} are violations the checks do not report yet (open gaps, marked below).
 
 {table}
 <!-- SEEDED-END -->'''
